@@ -11,6 +11,10 @@ For every descriptor the driver
   * calls the kernel,
   * checks definedness: no poison (and no NaN where NaN cannot arise) in any cell the interface promises
     (KernelCalls!Outputs), and compares with a cheap independent reference (numpy / scipy / ImageD11 python code).
+A descriptor that carries a thread count (`nt` > 0, the OpenMP dimension of KernelCalls.tla) is executed with exactly
+that many threads (cimaged11_omp_set_num_threads, restored behind the call) and, besides the checks above, every
+promised output is compared with what the same call returns on one thread: exactly for arrays, to rounding for the
+scalars that come out of a floating-point reduction.
 A wrapper rejection (f2py raises before the kernel runs, e.g. zero-length arrays) is recorded, not judged.
 `<out>.cur` holds the index of the running case, so that a sanitizer abort names its case.
 
@@ -47,6 +51,9 @@ class Ctx(object):
         self.checked = set()
         self.genbad = []
         self.notes = {}
+        self.outs = {}                  # promised outputs of the running call, as judged (name -> copy)
+        self.thread_dependent = False   # the handler says: this call's result legitimately depends on the schedule
+        self.refcache = {}              # slow references that do not depend on the thread count
 
     def bad(self, msg):
         self.problems.append(msg)
@@ -65,6 +72,7 @@ class Ctx(object):
     def defined(self, name, arr, poison, upto=None, nan_ok=False):
         self.checked.add(name)
         a = np.asarray(arr).ravel() if upto is None else np.asarray(arr).ravel()[:upto]
+        self.outs[name] = a.copy()
         if a.size == 0:
             return True
         if a.dtype.kind == "f":
@@ -96,6 +104,7 @@ class Ctx(object):
         against a wrapper generation that stops doing so.)"""
         self.checked.add(name)
         a = np.ascontiguousarray(arr).ravel()
+        self.outs[name] = a.copy()
         if a.size == 0:
             return True
         raw = a.view(np.uint8).reshape(a.size, a.dtype.itemsize)
@@ -110,6 +119,7 @@ class Ctx(object):
 
     def scalar(self, name, x, nan_ok=False):
         self.checked.add("ret")
+        self.outs["ret:" + name] = x
         if isinstance(x, float) and math.isnan(x) and not nan_ok:
             self.bad("returned %s is NaN" % name)
 
@@ -509,7 +519,12 @@ def k_localmaxlabel(d, mat, cx):
     if lab[border].any():
         cx.bad("localmaxlabel: border pixels carry labels")
     if im.ns >= 3 and im.nf >= 3 and im.ns * im.nf <= 300000:
-        ref = lm_definition(data)
+        key = ("lm", im.ns, im.nf, d["c1"], d["par"])          # (the definition does not know about threads)
+        if key not in cx.refcache:
+            if len(cx.refcache) > 400:
+                cx.refcache.clear()
+            cx.refcache[key] = lm_definition(data)
+        ref = cx.refcache[key]
         if ref is not None:
             cx.eq("localmaxlabel labels (steepest ascent definition)", lab, ref[0])
             cx.eq("localmaxlabel count", n, ref[1])
@@ -609,7 +624,9 @@ def _frelon(d, mat, cx, sub):
         base = img0
     cx.defined("img", img, P_F32)
     below = base < cut
-    if below.any(axis=1).all():         # otherwise the subtracted value is the previous row's of the same thread
+    if not below.any(axis=1).all():     # the subtracted value is the previous row's of the same thread
+        cx.thread_dependent = True
+    if below.any(axis=1).all():
         avg = np.array([base[r][below[r]].astype(np.float32).sum(dtype=np.float32) / np.float32(below[r].sum())
                         for r in range(im.ns)], np.float32)
         cx.close("%s img" % d["k"], img, base - avg[:, None], rel=1e-5)
@@ -679,9 +696,12 @@ def k_bgcalc(d, mat, cx):
     cx.call(cx.c.bgcalc, img, bg, msk, float(gain), float(sp), float(st))
     cx.defined("bg", bg, P_F32)
     cx.defined("msk", msk, P_I8)
-    if im.ns * im.nf <= 64:
-        with np.errstate(all="ignore"):
-            ebg, em = ref_bgcalc(img, gain, sp, st)
+    if im.ns * im.nf <= (400 if d.get("nt") else 64):     # (rows are independent; wider shapes: single-thread result)
+        key = ("bg", im.ns, im.nf, d["c1"])
+        if key not in cx.refcache:
+            with np.errstate(all="ignore"):
+                cx.refcache[key] = ref_bgcalc(img, gain, sp, st)
+        ebg, em = cx.refcache[key]
         cx.eq("bgcalc msk", msk.astype(np.int64), em)
         cx.close("bgcalc bg", bg, ebg, rel=1e-5)
 
@@ -1597,9 +1617,9 @@ class Models(object):
 
     def c07(self):
         if "c07" not in self._m:
-            from props import c07
-            from ImageD11 import cImageD11, indexing
-            self._m["c07"] = (c07, cImageD11, indexing)
+            import c07_lib
+            from ImageD11 import cImageD11
+            self._m["c07"] = (c07_lib, cImageD11)
         return self._m["c07"]
 
     def c12(self):
@@ -1609,6 +1629,9 @@ class Models(object):
         return self._m["c12"]
 
 
+FOREIGN = {}        # findings of other properties met while their cases are re-run here (counted, not judged)
+
+
 def run_model_case(case, idx, M, threads):
     src = case["src"]
     if src in ("connpix", "sparsecp"):
@@ -1616,10 +1639,26 @@ def run_model_case(case, idx, M, threads):
         return mod.run_case(case["case"], mods, idx)
     if src == "localmax":
         mod, mods = M.c13()
-        return mod.run_case(case["case"], mods, idx)
+        out = []
+        for p in mod.run_case(case["case"], mods, idx):
+            # C13's recorded value-level finding (sparse_localmaxlabel starts its neighbour maximum at -1e10: pixels
+            # with values <= -1e10 become false maxima): every output is defined, no memory is involved; counted
+            if isinstance(p, str) and p.startswith(getattr(mod, "MVLOW_TAG", "[values <= -1e10]")):
+                FOREIGN["c13_sparse_mvlow_sentinel_not_judged"] = FOREIGN.get("c13_sparse_mvlow_sentinel_not_judged", 0) + 1
+                continue
+            out.append(p)
+        return out
     if src == "c14":
         mod, mods = M.c14()
-        return ["%s: %s" % (r, m) for (r, k, m) in mod.judge(case["case"], mods, light=True)]
+        out = []
+        for (r, k, m) in mod.judge(case["case"], mods, light=True):
+            # C14's recorded python-level finding (sparse_frame.to_dense(<array>) hashes its argument and raises TypeError
+            # before any kernel runs): no memory is involved - not a C20 matter; counted
+            if r.startswith(getattr(mod, "TD_ARRAY", "sparse_frame.to_dense(array)")) and k == "TypeError" and "unhashable" in m:
+                FOREIGN["c14_to_dense_array_typeerror_not_judged"] = FOREIGN.get("c14_to_dense_array_typeerror_not_judged", 0) + 1
+                continue
+            out.append("%s: %s" % (r, m))
+        return out
     if src == "scorerefine":
         mod, rt = M.c06()
         out = []
@@ -1632,8 +1671,11 @@ def run_model_case(case, idx, M, threads):
                 out.append(p[1] if isinstance(p, tuple) else str(p))
         return out
     if src == "scoreassign":
-        mod, c, indexing = M.c07()
-        return mod.run_table(case["case"], c, indexing, case.get("reps", 1), threads or [2])
+        # one behaviour of ScoreAssign.tla, its peaks tiled `reps` times (reps > 1: more than one OpenMP chunk of 4096),
+        # through raw score_and_assign calls: labels, stored errors and returned count after every call = the model's
+        L, c = M.c07()
+        pk = L.Packed([case["case"]], case.get("G", 3))
+        return [what for what, _ in pk.run_raw(c, tuple(threads or (2,)), pk.P * case.get("reps", 1), labmap="one", inits=(1.0,))]
     if src == "merge3d":
         mod, R = M.c12()
         ns, nf, thr, om0, omstep = mod.CFG[case["cfg"]]
@@ -1644,10 +1686,45 @@ def run_model_case(case, idx, M, threads):
     raise KeyError(src)
 
 
+# scalars that come out of a floating-point reduction over the threads' partial sums: equal to rounding
+# (array_mean_var_*: float-rounded mean and std of one iteration feed the cut of the next; the handlers' own tolerance)
+REDUCED = {"array_stats": 1e-5, "array_mean_var_cut": 1e-3, "array_mean_var_msk": 1e-3}
+# outputs derived from such a scalar by a comparison (img < mean + cut * std): judged by the handler against the
+# returned mean / std, not against the single-thread mask
+DERIVED = {("array_mean_var_msk", "msk")}
+
+
+def compare_threads(k, nt, one, many, cx):
+    """the promised outputs on `nt` threads against the same call on one thread"""
+    for name in sorted(one):
+        if (k, name) in DERIVED:
+            continue
+        a, b = one[name], many.get(name)
+        if b is None:
+            cx.bad("output %s judged on one thread but not on %d" % (name, nt))
+            continue
+        if name.startswith("ret:"):
+            fa, fb = float(a), float(b)
+            tol = REDUCED.get(k, 0.0) * max(abs(fa), 1.0)
+            if not (fa == fb or abs(fa - fb) <= tol or (math.isnan(fa) and math.isnan(fb))):
+                cx.bad("returned %s on %d threads %r, on one thread %r" % (name[4:], nt, b, a))
+            continue
+        if a.shape != b.shape:
+            cx.bad("output %s: %d cells on %d threads, %d on one thread" % (name, b.size, nt, a.size))
+            continue
+        ne = (a != b)
+        if a.dtype.kind == "f":
+            ne &= ~(np.isnan(a) & np.isnan(b))
+        if ne.any():
+            q = int(np.nonzero(ne)[0][0])
+            cx.bad("output %s depends on the number of threads: cell %d of %d is %r on %d threads, %r on one thread "
+                   "(%d cells differ)" % (name, q, a.size, b[q].item(), nt, a[q].item(), int(ne.sum())))
+
+
 def run_descriptor(case, cx):
     d = case["d"]
     mat = case.get("mat") or {}
-    cx.problems, cx.checked = [], set()
+    cx.problems, cx.checked, cx.outs, cx.thread_dependent = [], set(), {}, False
     try:
         K[d["k"]](d, mat, cx)
     except Rejected as e:
@@ -1669,6 +1746,8 @@ def main():
            "kernels": sorted(K), "module_functions": sorted(
                n for n in dir(cx.c) if type(getattr(cx.c, n)).__name__ == "fortran")}
     old = cx.c.cimaged11_omp_get_max_threads()
+    base = {}                   # descriptor without its thread count -> its promised outputs on one thread
+    out["thread_compared"] = 0
     with open(cases_path) as f:
         lines = f.readlines()
     cur = open(out_path + ".cur", "w")
@@ -1689,12 +1768,32 @@ def main():
             probs = []
             try:
                 if case.get("src", "kc") == "kc":
-                    for nt in (threads or [None]):
+                    own = case["d"].get("nt", 0)        # the descriptor's own thread count (KernelCalls!PickThreads)
+                    bk = json.dumps(dict(case["d"], nt=0), sort_keys=True) if own else None
+                    if own > 1 and bk not in base:
+                        # the same call on one thread (props/c20.py sends the nt = 1 descriptors first: rarely needed)
+                        cx.c.cimaged11_omp_set_num_threads(1)
+                        st1, _ = run_descriptor(case, cx)
+                        out["calls"] += 1
+                        base[bk] = dict(cx.outs) if st1 == "ok" and not cx.problems else None
+                    for nt in ([own] if own else (threads or [None])):
                         if nt is not None:
                             cx.c.cimaged11_omp_set_num_threads(nt)
+                            if cx.c.cimaged11_omp_get_max_threads() != nt:
+                                raise RuntimeError("cimaged11_omp_set_num_threads(%d) left %d threads" % (
+                                    nt, cx.c.cimaged11_omp_get_max_threads()))
                         t0 = time.time()
-                        st, why = run_descriptor(case, cx)
+                        try:
+                            st, why = run_descriptor(case, cx)
+                        finally:
+                            if own:
+                                cx.c.cimaged11_omp_set_num_threads(old)
                         out["calls"] += 1
+                        if own == 1 and st == "ok":
+                            base[bk] = dict(cx.outs) if not cx.problems else None
+                        elif own > 1 and st == "ok" and base.get(bk) is not None and not cx.thread_dependent:
+                            compare_threads(case["d"]["k"], own, base[bk], cx.outs, cx)
+                            out["thread_compared"] += 1
                         tk = out["time_s"]
                         tk[case["d"]["k"]] = tk.get(case["d"]["k"], 0.0) + time.time() - t0
                         if st == "rejected":
@@ -1728,7 +1827,7 @@ def main():
     finally:
         cx.c.cimaged11_omp_set_num_threads(old)
     out["genbad"] = cx.genbad[:20]
-    out["notes"] = cx.notes
+    out["notes"] = dict(cx.notes, **FOREIGN)
     with open(out_path, "w") as g:
         json.dump(out, g, default=_jd)
 
